@@ -139,7 +139,7 @@ func (demuxer *Demuxer) Close() error {
 
 	demuxer.closed = true
 	verifhook.Point("rtpdemuxer.close.flagged", demuxer)
-	demuxer.recvQueue.Signal()
+	demuxer.recvQueue.Push(nil) // 加锁入列 nil 唤醒处理 routine，避免信号丢失
 	return nil
 }
 
